@@ -9,6 +9,8 @@ import (
 	"io"
 	"os"
 	"path/filepath"
+	"strconv"
+	"strings"
 	"sync"
 	"time"
 
@@ -1557,6 +1559,38 @@ func (fi *fileIter) next() (string, error) {
 	fi.fileNum++
 
 	return fileName, nil
+}
+
+// RemoveLeftoverFiles removes the numbered index files that are still in
+// place after MoveFiles has moved the index at indexPath away. MoveFiles only
+// moves the files from the first file number of the header on. Index GC
+// advances that number in the header before it removes the file, so a crash in
+// between leaves a file below the first file number behind. Such a file is
+// never looked at again, unless a new index, whose file numbers start at 0, is
+// moved to this path: it would then be read as a file of the new index.
+func RemoveLeftoverFiles(indexPath string) error {
+	dir, base := filepath.Split(indexPath)
+	if dir == "" {
+		dir = "."
+	}
+	entries, err := os.ReadDir(dir)
+	if err != nil {
+		return err
+	}
+	for _, entry := range entries {
+		suffix, ok := strings.CutPrefix(entry.Name(), base+".")
+		if !ok || entry.IsDir() {
+			continue
+		}
+		if _, err = strconv.ParseUint(suffix, 10, 32); err != nil {
+			// Not an index file.
+			continue
+		}
+		if err = os.Remove(filepath.Join(dir, entry.Name())); err != nil {
+			return err
+		}
+	}
+	return nil
 }
 
 func MoveFiles(indexPath, newDir string) error {
